@@ -702,9 +702,9 @@ def _rewrite_dtplus(e):
                 return ast.BinOp(left=n.args[0], op=ast.Add(), right=n.args[1])
             return n
 
-    import copy
+    from .model import src as _src
 
-    return R().visit(copy.deepcopy(e))
+    return R().visit(ast.parse(_src(e), mode="eval").body)
 
 
 # ---------------------------------------------------------------------------
